@@ -179,6 +179,30 @@ def env():
 
 
 # ---------------------------------------------------------------------------
+# C17: printers that hand information down through the user context (PrettyContext.assoc / get)
+
+class CtxNode:
+    """kind 'section': prints its children as they are; 'secret': prints them with mask=True (set through two assoc
+    calls, one below the other); 'reveal': prints them with mask=False; 'leaf': prints '***' when masked, else its number"""
+
+    def __init__(self, kind, children=(), n=0):
+        self.kind = kind
+        self.children = list(children)
+        self.n = n
+
+
+@register_pretty(CtxNode)
+def _pretty_ctxnode(value, ctx):
+    if value.kind == 'leaf':
+        return "'***'" if ctx.get('mask') else str(value.n)
+    if value.kind == 'secret':
+        ctx = ctx.assoc('level', (ctx.get('level') or 0) + 1).assoc('mask', True)
+    elif value.kind == 'reveal':
+        ctx = ctx.assoc('mask', False)
+    return pretty_call_alt(ctx, value.kind, args=tuple(value.children))
+
+
+# ---------------------------------------------------------------------------
 # C17: arbitrary pretty_call / pretty_call_alt invocations
 
 class CallSpec:
